@@ -41,6 +41,10 @@ func (f *Filter) Execute(data interface{}) (interface{}, error) {
 	}
 
 	rvalue := reflect.ValueOf(data)
+	if !rvalue.IsValid() {
+		// untyped nil: reflect.Value.Type would panic
+		return nil, fmt.Errorf("Only slices, arrays and maps are filterable")
+	}
 	rtype := rvalue.Type()
 
 	switch rvalue.Kind() {
